@@ -12,7 +12,7 @@ for d in sorted(glob.glob(os.path.join(V, "seeded", "C*"))):
     notes = open(os.path.join(d, "notes.md")).read() if os.path.exists(os.path.join(d, "notes.md")) else ""
     res = json.load(open(os.path.join(d, "result.json"))) if os.path.exists(os.path.join(d, "result.json")) else {}
     title = next((l.lstrip("# ").strip() for l in notes.splitlines() if l.startswith("# ")), sid)
-    title = re.sub(r"^(Seed\s+)?C\d\d\s*[/ ]?\s*(seed\s*)?\(?(change\s*)?[ab]\)?\s*[-—:]+\s*", "", title, flags=re.I)
+    title = re.sub(r"^(Seed(ed)?\s+)?(change\s+)?C\d\d\s*[/ ]?\s*(seed\s*)?\(?(change\s*)?[a-h12]?\)?\s*[-—:]+\s*", "", title, flags=re.I)
     m = re.search(r"^##[^\n]*(manifest|trigger|needs|When it)[^\n]*\n(.*?)(?=^## |\Z)", notes, flags=re.S | re.M | re.I)
     needs = re.sub(r"\s+", " ", m.group(2)).strip() if m else ""
     if not needs:
@@ -27,11 +27,14 @@ for d in sorted(glob.glob(os.path.join(V, "seeded", "C*"))):
         "seed": sid, "property": sid.split("-")[0], "summary": title,
         "needs_to_manifest": needs[:1500],
         "files": sorted(os.listdir(d)),
-        "ran": [f"git -C /repo apply seeded/{sid}/patch.diff", f"./check {sid.split('-')[0]} --tier quick",
-                f"PYTHONPATH=/repo/src /venv/bin/python seeded/{sid}/demo.py  (with and without the change)", "git -C /repo checkout -- ."],
+        "ran": [f"tools/run_seeds_par.py: scratch copy of /repo/src + patch -p1 < seeded/{sid}/patch.diff (same effect as git -C /repo apply; /repo itself untouched)",
+                f"MICI_REPO=<copy> ./check {sid.split('-')[0]} --tier quick",
+                f"PYTHONPATH=<copy>/src /venv/bin/python seeded/{sid}/demo.py  and  PYTHONPATH=/repo/src ... demo.py (with and without the change)", "scratch copy removed"],
         "demo_exit_with_change": res.get("demo_exit_with_patch"), "demo_exit_without_change": res.get("demo_exit_without_patch"),
         "check_exit_with_change": res.get("check_exit"), "detected": res.get("detected"), "caught_by_obligations": obs[:8],
-        "suite_with_change": "whole suite at its baseline (reported by the seeding agent in notes.md; the relevant test files were re-run when the patch was rebased)",
+        "suite_with_change": "whole suite at its baseline 32504 passed / 21 skipped (run by the seeding agent with the change applied; summary line in notes.md)",
+        "reproduced_natively_by_replay": res.get("reproduced_natively"),
+        "round": {"a": 1, "b": 1, "c": 2, "d": 2, "e": 3, "f": 3, "g": 4, "h": 4}.get(sid.split("-")[-1]),
     }
     json.dump(meta, open(os.path.join(d, "meta.json"), "w"), indent=1)
     first = obs[0].split("/", 1)[1] if obs else "—"
